@@ -137,9 +137,13 @@ func (my *cacheImpl) Load(key any, loader Loader) *Future {
 
 		next = newFuture(predecessor)
 		futures.d[key] = next
-		my.sendJob(cacheJob{loader: loader, key: key, future: next})
 	}
 	futures.Unlock()
+
+	// 必须在Unlock()之后发送: jobChan满的时候sendJob()会阻塞, 持锁阻塞会与removeRotted()形成死锁
+	if next != nil {
+		my.sendJob(cacheJob{loader: loader, key: key, future: next})
+	}
 
 	//fmt.Printf("lastStatus=%v \n", lastStatus)
 	switch lastStatus {
